@@ -28,6 +28,26 @@ var literalCases = map[string]struct {
 		c: Case{Program: "fork (=> pass => put a:=a) | join on a=a b2:=b", Meta: prog.Meta{Ordered: false, Deterministic: true}, Source: "grammar",
 			Input: gen.SeqFromZSON(`{a:1,b:1} {a:2,b:2} {a:3,b:3} {a:4,b:4}`), SortKey: "a", Reader: "zng", Frame: 1, Threads: 1, Batch: 100},
 	},
+	"known-C07-bufferfilter-nested-fieldname": {
+		sig: "C07/zng-bufferfilter/search-fieldname-inside-container", expect: "known",
+		c: Case{Program: "foo", Meta: prog.Meta{Ordered: true, Deterministic: true}, Source: "grammar",
+			Input: gen.SeqFromZSON(`{a:[{foo:1}]} {a:[{bar:2}]}`), Reader: "zng", Frame: 1, Threads: 1, Batch: 100},
+	},
+	"known-C07-sortkey-summarize-null-missing": {
+		sig: "C07/sortkey-summarize/null-and-missing-keys-interleaved", expect: "known",
+		c: Case{Program: "count() by bar", Meta: prog.Meta{Ordered: false, Deterministic: true}, Source: "grammar",
+			Input: gen.SeqFromZSON(`{bar:null(int64)} {a:1} {bar:null(int64)}`), SortKey: "bar", Desc: true, Reader: "plain", Frame: 1, Threads: 1, Batch: 1},
+	},
+	"known-C07-optimize-duplicate-pass": {
+		sig: "C07/optimize-panics/duplicate-pass-op", expect: "known",
+		c: Case{Program: "fork (=> pass => pass) | put b:=1 | fork (=> pass => pass) | put c:=2", Meta: prog.Meta{Ordered: false, Deterministic: true}, Source: "grammar",
+			Input: gen.SeqFromZSON(`{a:1}`), Reader: "plain", Frame: 1000, Threads: 1, Batch: 100},
+	},
+	"known-C07-sortkey-summarize-not-first-key": {
+		sig: "C07/sortkey-summarize/sort-key-not-first-groupby-key", expect: "known",
+		c: Case{Program: "count() by k, c", Meta: prog.Meta{Ordered: false, Deterministic: true}, Source: "grammar",
+			Input: gen.SeqFromZSON(`{k:1,c:1} {k:2,c:1} {k:1,c:1}`), SortKey: "c", Reader: "plain", Frame: 1, Threads: 1, Batch: 1},
+	},
 	"known-C07-sortkey-join-desc-nulls": {
 		sig: "C07/sortkey-join/desc-null-keys", expect: "known",
 		c: Case{Program: "fork (=> pass => put a:=a) | join on a=a b2:=b", Meta: prog.Meta{Ordered: false, Deterministic: true}, Source: "grammar",
